@@ -1,6 +1,8 @@
 """C02  Byte fidelity: parse-then-dump reproduces every data-carrying input byte."""
 from __future__ import annotations
 
+import io
+
 from .. import engine, gen, lib, model
 from ..engine import case_detail, outcome
 
@@ -122,9 +124,42 @@ def witnesses(ctx):
     ctx.cell("pinned-witnesses")
 
 
+def pointer_type_changed_after_definition(ctx):
+    """A structure keeps the pointer width it was defined with: after cs.pointer was changed, parsing and dumping it
+    still reproduces its bytes (members, arrays of pointers, both byte orders, both readers)."""
+    text = "struct T { uint8 h; uint8 *p; uint32 *table[2]; uint16 t; char *s; };"
+    for compiled in (True, False):
+        for endian in "<>":
+            for first, second in (("uint64", "uint32"), ("uint32", "uint64"), ("uint16", "uint64"), ("uint64", "uint8")):
+                ctx.evaluation(("pointer-type-changed", compiled, endian, first, second))
+                ctx.cell("pointer-type-changed-after-definition")
+                det = {"text": text, "compiled": compiled, "endian": endian, "first": first, "second": second,
+                       "workload": "pointer-type-changed"}
+                try:
+                    cs = lib.cstruct(endian=endian, pointer=first)
+                    cs.load(text, compiled=compiled)
+                    size = len(cs.T)
+                    data = bytes((0x11 * (i + 1)) & 0x7F for i in range(size))
+                    before = cs.T(data).dumps()
+                    cs.pointer = getattr(cs, second)
+                    o = cs.T(data)
+                    after = o.dumps()
+                    st = io.BytesIO()
+                    n = o.write(st)
+                except Exception as e:  # noqa: BLE001
+                    ctx.violation("data-bits", f"dump-after-pointer-type-change-raises:{type(e).__name__}", dict(det, error=lib.exc_sig(e)))
+                    continue
+                if not (before == data == after == st.getvalue() and n == size == len(cs.T)):
+                    ctx.violation("data-bits", "data-bit-lost-or-altered", dict(det, data=data.hex(), before=before.hex(), after=after.hex()))
+                else:
+                    ctx.event("pointer_type_change_checked")
+
+
 def run(ctx):
     if ctx.shard == 0:
         witnesses(ctx)
+    if ctx.shard == 2:
+        pointer_type_changed_after_definition(ctx)
     if ctx.shard % 4 == 1:
         # storage units of bit-fields placed at run time (behind a variable-size member), exactly filled units followed by
         # a unit of the same type, storage types whose size is not their alignment
